@@ -46,6 +46,15 @@ def train_on_grid(draw, n, pool, earlier, max_spikes, related=False):
     if earlier:
         kinds = ["jitter", "jitter", "jitter"] + kinds + ["copy"]
     kinds += ["one", "empty", "one_end", "one_start", "both_edges"]
+    if n >= 40 and draw(st.integers(0, 19)) == 0:
+        # a long train (more than 32 spikes), whatever the size class of the tier:
+        # code paths that switch algorithm for long inputs are reached
+        k = draw(st.integers(33, min(n + 1, 72)))
+        style = draw(st.sampled_from(["spread", "early", "late"]))
+        lo, hi = (0, n) if style == "spread" else ((0, max(k, n // 2)) if style == "early"
+                                                   else (min(n - k, n // 2), n))
+        return _uniq_sorted(draw(st.lists(st.integers(lo, hi), min_size=k, max_size=k,
+                                          unique=True)))
     if related and earlier and any(earlier):
         kinds = ["jitter"] * 6 + ["random", "pool", "copy"]
     kind = draw(st.sampled_from(kinds))
